@@ -284,7 +284,7 @@ Definition prev_ok (T : tarball) (w : world) : bool :=
 Definition expect_ok (Q : opts) (w : world) : bool :=
   match o_expect Q with None => true | Some e => N.eqb e (cur w) end.
 
-Definition admit (T : tarball) (Q : opts) (w : world) : bool :=
+Definition admits (T : tarball) (Q : opts) (w : world) : bool :=
   t_members_ok T && nodupb (map a_path (t_arts T)) && negb (match t_arts T with [] => true | _ => false end)
   && t_sig_ok T && t_digest_ok T && expect_ok Q w && prev_ok T w && (quiescent w || o_force Q).
 
@@ -347,7 +347,7 @@ Definition apply_flow (v : variant) (T : tarball) (F : faults) (w : world) : wor
   end.
 
 Definition apply (v : variant) (T : tarball) (Q : opts) (F : faults) (w : world) : world * res :=
-  if admit T Q w then apply_flow v T F w else (w, RErr).
+  if admits T Q w then apply_flow v T F w else (w, RErr).
 
 (* ---- the property-level monitor (the Go harness computes the same thing from the disk) ---- *)
 Inductive mon := MonNone | MonOk | MonMixed | MonNa.
